@@ -140,3 +140,40 @@ Definition trace4_ok (rf re : list (list nat)) (tpls : list (list nref)) : bool 
   let pieces := flat_map (qface_pieces_coded rf re) (seq 0 (length rf)) in
   forallb (fun e => Nat.eqb (focc e E) 1 && Nat.eqb (focc e pieces) 1) pieces
   && forallb (fun e => (focc e pieces =? 1) || (focc e E =? 2)) E.
+
+(* ------------------------------------------------------------------ hexahedra: vertex cycles of the child faces *)
+Definition face_cycle (rf : list (list nat)) (tpl : list nref) (s : nat) : list nref :=
+  map (fun i => nth i tpl NC) (nth s rf []).
+
+Definition dihedral_forms {A} (q : list A) : list (list A) :=
+  match q with
+  | [a; b; c; d] => [[a; b; c; d]; [b; c; d; a]; [c; d; a; b]; [d; a; b; c];
+                     [d; c; b; a]; [c; b; a; d]; [b; a; d; c]; [a; d; c; b]]
+  | _ => []
+  end.
+Definition nrefs_eqb := list_eqb nref_eqb.
+Definition dihedral_nref (q q' : list nref) : bool := existsb (nrefs_eqb q') (dihedral_forms q).
+Definition same_setb (s1 s2 : list nref) : bool :=
+  forallb (fun r => existsb (nref_eqb r) s2) s1 && forallb (fun r => existsb (nref_eqb r) s1) s2.
+
+Definition all_child_faces (rf : list (list nat)) (tpls : list (list nref)) : list (list nref) :=
+  flat_map (fun tpl => map (face_cycle rf tpl) (seq 0 (length rf))) tpls.
+
+(* inside one parent: two child faces with the same nodes list them in the same cycle up to rotation / reversal *)
+Definition hex_same_parent_ok (rf : list (list nat)) (tpls : list (list nref)) : bool :=
+  let F := all_child_faces rf tpls in
+  forallb (fun s1 => forallb (fun s2 => implb (same_setb s1 s2) (dihedral_nref s1 s2)) F) F.
+
+(* the cycle of the piece at corner j of parent face a: corner, node of the edge to the next corner, face node, node of the
+   edge from the previous corner *)
+Definition canon_cycle (rf re : list (list nat)) (a j : nat) : list nref :=
+  let lf := nth a rf [] in
+  let i := nth j lf 0 in let inext := nth ((j + 1) mod 4) lf 0 in let iprev := nth ((j + 3) mod 4) lf 0 in
+  [NV i; NE (eslot re i inext); NF a; NE (eslot re iprev i)].
+
+(* every child face either contains the cell node or is, up to rotation / reversal, the canonical piece of one corner of one
+   parent face *)
+Definition hex_boundary_ok (rf re : list (list nat)) (tpls : list (list nref)) : bool :=
+  forallb (fun s => existsb (nref_eqb NC) s ||
+                    existsb (fun a => existsb (fun j => dihedral_nref (canon_cycle rf re a j) s) (seq 0 4)) (seq 0 (length rf)))
+          (all_child_faces rf tpls).
